@@ -16,6 +16,7 @@ from .poly import Rat, Unmodelled
 from .repo import Repo, FuncInfo, ClassInfo, AnalysisError, parse_type
 from .evaluator import analyse, Config
 from .values import *
+from .symeval import called_from
 
 INLINE = {"Composition.first", "Composition.second", "Composition.to_weight", "Composition.to_molar",
           "Permeance.convert", "get_permeate_composition_from_fluxes"}
@@ -23,7 +24,11 @@ KG = "kg/(m2*h*kPa)"
 UNITS = (KG, "SI", "GPU")
 
 
-def returns_constructor_of(repo: Repo, func: FuncInfo, cls_name: str) -> bool:
+def returns_constructor_of(repo: Repo, func: FuncInfo, cls_name: str, depth=0) -> bool:
+    """func returns cls_name(...) itself, or what a helper extracted from it (a function newer than the last validation) returns."""
+    from .structural import type_env
+    from .symeval import is_new_function
+    env = None
     for n in ast.walk(func.node):
         if isinstance(n, ast.Return) and isinstance(n.value, ast.Call):
             f = n.value.func
@@ -32,11 +37,22 @@ def returns_constructor_of(repo: Repo, func: FuncInfo, cls_name: str) -> bool:
                 r = repo.resolve(func.module, name)
                 if isinstance(r, ClassInfo) and r.name == cls_name:
                     return True
+            if depth < 3:
+                if env is None:
+                    env = type_env(repo, func)
+                try:
+                    c = env.resolve_callee(n.value)
+                except Exception:
+                    c = None
+                if isinstance(c, FuncInfo) and is_new_function(c) and returns_constructor_of(repo, c, cls_name, depth + 1):
+                    return True
     return False
 
 
 def process_functions(repo: Repo) -> List[FuncInfo]:
-    return [f for f in repo.all_functions() if f.cls is not None and not f.is_classmethod
+    """The public model generators: methods that hand back a ProcessModel (extracted private helpers are part of their callers)."""
+    from .symeval import is_new_function
+    return [f for f in repo.all_functions() if f.cls is not None and not f.is_classmethod and not is_new_function(f)
             and returns_constructor_of(repo, f, "ProcessModel")]
 
 
@@ -148,10 +164,53 @@ class PM:
             tr.append("%s=%s" % (s, d))
         self.path_label = label + ((" | " + ", ".join(tr)) if tr else "")
         self.loop = None
+        from .symeval import is_new_function
         for lp in out.loops:
-            if lp.kind == "for" and lp.func is func and lp.series:
+            if lp.kind == "for" and (lp.func is func or (lp.func is not None and is_new_function(lp.func))) and lp.series:
                 self.loop = lp   # the Euler loop: the last for-loop with series
         self.k = self.loop.k if self.loop else None
+        self._indexed_view()
+
+    def _indexed_view(self):
+        """A model written with per-step records and carried state ( record = step(state); records.append(record); state = next )
+        reports its series as comprehensions over the records.  Each such field is given the indexed form the rules are
+        written against: a state variable becomes the series [v0] + [next(v[k])] with its look-ahead element dropped, any
+        other quantity the series of its per-step value."""
+        lp = self.loop
+        if lp is None or not isinstance(self.value, ObjV):
+            return
+        from .evaluator import Evaluator
+        from .symeval import Ctx, val_key
+        ev = None
+        ph_keys = {}
+        for name, ph in getattr(lp, "placeholders", {}).items():
+            try:
+                ph_keys[poly.key_str(val_key(ph))] = name
+            except Unmodelled:
+                pass
+        for fld, v in list(self.value.fields.items()):
+            if not (isinstance(v, ListV) and v.kind == "fam" and v.lo.is_zero()):
+                continue
+            src = getattr(v, "over_series", None)
+            if src is None or not any(src is x for x in lp.series.values()):
+                continue
+            if ev is None:
+                ev = Evaluator(Ctx(self.repo, Config(), []))
+            try:
+                e = ev.subst_val(v.elem, {v.idx.id: Rat.atom(lp.k)})
+                ek = poly.key_str(val_key(e))
+            except Unmodelled:
+                continue
+            name = ph_keys.get(ek)
+            if name is not None and name in lp.carried_after:
+                sr = ListV("series", name=name, init=[lp.carried_before[name]], appended=[lp.carried_after[name]], k=lp.k, lo=lp.lo,
+                           n=lp.n, popped=1, closed=True, elem_k=lp.placeholders[name], func=self.func)
+            else:
+                sr = ListV("series", name="%s@record" % fld, init=[], appended=[e], k=lp.k, lo=lp.lo, n=lp.n, popped=0, closed=True,
+                           elem_k=None, func=self.func)
+            sr.per_iter = list(sr.appended)
+            sr.synthetic = True
+            self.value.fields[fld] = sr
 
     def field(self, name) -> Val:
         return self.value.fields.get(name)
@@ -206,7 +265,8 @@ class PM:
 
     def solver_calls(self):
         return [c for c in self.out.calls if isinstance(c.callee, FuncInfo)
-                and c.callee.qualname == "Pervaporation.calculate_partial_fluxes" and c.caller.func is self.func]
+                and c.callee.qualname == "Pervaporation.calculate_partial_fluxes"
+                and called_from(c, self.func)]
 
 
 def is_admissibility_exit(o) -> bool:
